@@ -53,6 +53,11 @@ def mk_proj(i, t):
         return t[1][i]
     if t[0] == "ctor" and i < len(t[2]):
         return t[2][i]
+    if t[0] == "call" and t[1] == "find" and len(t[2]) == 2 and t[2][0][0] == "call" and t[2][0][1] == "enumerate" and i in (0, 1):
+        # first (index, element) of `Y.enumerate()` whose element satisfies c: the index is `Y.position(c)`, the element `Y.find(c)`
+        y, lam = t[2][0][2][0], t[2][1]
+        if not contains(lam, ("index", y)):
+            return ("call", "position" if i == 0 else "find", (y, lam))
     return ("proj", i, t)
 
 
@@ -1180,7 +1185,7 @@ def cond_terms(nz, root, node):
 
 def path_conditions_ex(root, target):
     """`hir.path_conditions` with, for every condition, the node that owns it and the block that is left when the condition
-    fails: [{"kind", "node", "extra", "owner", "exit"}] (`exit` only for after-exit / let-else conditions)."""
+    fails: [{"kind", "node", "extra", "owner", "exit"}] (`exit`: list of blocks, only for after-exit / let-else / diverging-arm conditions)."""
     chain = H.parents_of(root, target)
     if chain is None:
         return []
@@ -1203,9 +1208,21 @@ def path_conditions_ex(root, target):
                     break
                 s0 = H.peel(st, refs=False)
                 if s0.get("k") == "if" and "else" not in s0 and H.diverges(s0["then"]):
-                    out.append({"kind": "if", "node": s0["cond"], "extra": False, "owner": s0, "exit": s0["then"]})
+                    out.append({"kind": "if", "node": s0["cond"], "extra": False, "owner": s0, "exit": [s0["then"]]})
                 elif s0.get("k") == "let" and "els" in s0:
-                    out.append({"kind": "letelse", "node": s0, "extra": True, "owner": s0, "exit": s0["els"]})
+                    out.append({"kind": "letelse", "node": s0, "extra": True, "owner": s0, "exit": [s0["els"]]})
+                elif s0.get("k") == "let" and "init" in s0:
+                    # `let x = match e { P => v, Q => <diverges> };` / `let x = if c { v } else { <diverges> };` = let-else
+                    init = H.peel(s0["init"], refs=False)
+                    if init.get("k") == "match":
+                        live = [ai for ai, a in enumerate(init["arms"]) if not H.diverges(a["body"])]
+                        dead = [a["body"] for a in init["arms"] if H.diverges(a["body"])]
+                        if dead and len(live) == 1:
+                            out.append({"kind": "arm", "node": init, "extra": live[0], "owner": s0, "exit": dead})
+                    elif init.get("k") == "if" and "else" in init and H.diverges(init["then"]) != H.diverges(init["else"]):
+                        taken = not H.diverges(init["then"])
+                        out.append({"kind": "if", "node": init["cond"], "extra": taken, "owner": s0,
+                                    "exit": [init["else"] if taken else init["then"]]})
     return out
 
 
